@@ -178,6 +178,14 @@ def run_all(tier, seed):
         r['cached'] = True
         return r, cdir
     os.makedirs(cdir, exist_ok=True)
+    # keep the cache small: only the 40 most recent trees (disk space is limited; Kani result files are kept)
+    try:
+        ds = sorted((d for d in glob.glob(os.path.join(CACHE, '*')) if os.path.isdir(d) and d != cdir), key=os.path.getmtime, reverse=True)
+        for d in ds[40:]:
+            import shutil
+            shutil.rmtree(d, ignore_errors=True)
+    except Exception:
+        pass
     t0 = time.time()
     res = {'key': key, 'tier': tier, 'seed': seed, 'runs': [], 'cached': False, 'degraded': {}}
     base_cfg = json.load(open(os.path.join(D.VERIF, 'contracts', 'extract.json')))
